@@ -576,8 +576,13 @@ func (in *Interp) violationAt(id, msg, site string) {
 func (in *Interp) violationAtF(id, msg, site, fname string) {
 	// a violation of the same assertion at the same site is already recorded:
 	// do not pay for another (possibly expensive) exact model
+	// ... except that up to 4 different scenarios (different nd.Choose
+	// decisions) are kept per assertion, so that a model which does not replay
+	// natively (e.g. one that needs a chosen hash value) does not hide a
+	// scenario that does
 	in.ex.mu.Lock()
-	dup := in.ex.vioSeen[in.harness+"|"+id+"|"+site]
+	base := in.harness + "|" + id + "|" + site
+	dup := in.ex.vioSeen[base+"|"+in.chooseSig()] || in.ex.vioCount[base] >= 4
 	in.ex.mu.Unlock()
 	if dup {
 		in.end("violation", id+": "+msg+" (duplicate of a recorded violation)")
@@ -613,6 +618,18 @@ func (in *Interp) violationAtF(id, msg, site, fname string) {
 	}
 	in.ex.addViolation(v)
 	in.end("violation", id+": "+msg)
+}
+
+// chooseSig is the sequence of nd.Choose decisions taken on this path.
+func (in *Interp) chooseSig() string {
+	var b strings.Builder
+	for _, d := range in.draws {
+		if d.Kind == "choose" {
+			b.WriteString(d.Val)
+			b.WriteByte(',')
+		}
+	}
+	return b.String()
 }
 
 func (in *Interp) drawValue(d Draw, m Model) string {
